@@ -26,12 +26,12 @@ PROPS = {"C05": dict(
         "no faults are injected: a Replace/Create that fails for another reason than its precondition is accepted only as SQLITE_BUSY/LOCKED",
     ],
     technique="concurrent history recording + porcupine CAS-register linearizability check + direct invariants + request audit on protocol fakes",
-    budget={"quick": 600, "thorough": 2400},
+    budget={"quick": 600, "thorough": 7200},
     units=[
         rapid("ctlog", "internal/ctlog", "^TestVerifC05SQLite$", 150, 600),
         rapid("ctlog", "internal/ctlog", "^TestVerifC05DynamoDB$", 150, 600),
         rapid("ctlog", "internal/ctlog", "^TestVerifC05ETag$", 150, 600),
-        rapid("ctlog", "internal/ctlog", "^TestVerifC05Procs$", 40, 100),
+        rapid("ctlog", "internal/ctlog", "^TestVerifC05Procs$", 100, 300),
         _thorough_only(rapid("ctlog", "internal/ctlog", "^TestVerifC05(SQLite|DynamoDB|ETag)$", 0, 150, ts=4), race=True),
-        _thorough_only(rapid("ctlog", "internal/ctlog", "^TestVerifC05Procs$", 0, 30, ts=2), race=True),
+        _thorough_only(rapid("ctlog", "internal/ctlog", "^TestVerifC05Procs$", 0, 100, ts=2), race=True),
     ])}
